@@ -478,6 +478,19 @@ BodyFailures(req, h, bs, toks, drained) ==
            LET sz == Size(h.cr.a, h.cr.b)
                exp == <<D(Mod251(h.cr.a), IF IsSmall(sz) THEN ToNat(sz) ELSE B)>>
            IN ~TokPrefix(ptoks0, exp) \/ (clean /\ IsSmall(sz) /\ ptoks0 # exp)
+     \* (multipart: under every part header exactly the bytes its own Content-Range names -- whatever
+     \*  the request asked for, which is C03's and C06's business)
+     \/ id = "C02" /\ kind = "multi" /\ honest /\
+           \E i \in DOMAIN toks :
+              \/ (toks[i].t = "D" /\ (i = 1 \/ toks[i - 1].t # "PH"))          \* data outside any part
+              \/ /\ toks[i].t = "PH" /\ i < Len(toks)
+                 /\ ~(Le(toks[i].a, toks[i].b) /\ Lt(toks[i].b, toks[i].l) /\ toks[i].l = L)
+              \/ /\ toks[i].t = "PH" /\ i < Len(toks) /\ Le(toks[i].a, toks[i].b)
+                 /\ IsSmall(Size(toks[i].a, toks[i].b))
+                 /\ LET sz == ToNat(Size(toks[i].a, toks[i].b))
+                        nx == toks[i + 1]
+                    IN ~( /\ nx.t = "D" /\ nx.r = Mod251(toks[i].a) /\ nx.n <= sz
+                          /\ (i + 1 < Len(toks) => nx.n = sz) )
      \* --- C03: a multipart body carries exactly the resolved ranges, in request order
      \/ id = "C03" /\ kind = "multi" /\ clean /\ rdom /\
            ~\E r \in readings : LET sh == ShapeOf(L, r) IN sh.k = "multi" /\ PHParts(toks) = sh.parts
